@@ -240,6 +240,16 @@ def sem():
             [op("spawn", v=1), op("spawn", v=2), op("release", o=0, v=1), op("release", o=0, v=2), op("join", v=1), op("join", v=2), op("avail", o=0)],
             [op("acquire", o=0, v=2), op("avail", o=0)],
             [op("acquire", o=0, v=1), op("try_acquire", o=0, v=1)]], sems=[(0, fair)]))
+        # who queues first is decided after the other's preceding operation became visible
+        P.append(prog(b + 5, "corpus_sem", [
+            [op("spawn", v=1), op("spawn", v=2), op("release", o=0, v=1), op("join", v=1), op("join", v=2)],
+            [op("store", o=0, v=1), op("acquire", o=0, v=1), op("fadd", o=1, v=1), op("release", o=0, v=1)],
+            [op("load", o=0), op("acquire", o=0, v=1), op("fadd", o=1, v=2), op("release", o=0, v=1)]], sems=[(0, fair)], atomics=[0, 0]))
+        # ... seen through try_acquire, which fails behind a queued waiter of a fair semaphore even if permits are left
+        P.append(prog(b + 6, "corpus_sem", [
+            [op("spawn", v=1), op("spawn", v=2), op("join", v=2), op("release", o=0, v=1), op("join", v=1)],
+            [op("store", o=0, v=1), op("acquire", o=0, v=2)],
+            [op("load", o=0), op("try_acquire", o=0, v=1), op("load", o=0)]], sems=[(1, fair)], atomics=[0]))
     return P
 
 
